@@ -3,6 +3,7 @@ import LemoModel.Merkle
 import LemoModel.Mpt
 import LemoModel.MptStore
 import LemoModel.MptDecode
+import LemoModel.StorageCache
 namespace Driver.C17
 open LemoModel Driver
 
@@ -18,9 +19,21 @@ structure SSt where
   /-- interned hashes, in order of first appearance in the output -/
   ids : List MptStore.Hash := []
 
+/-- state of the `sc.…` stream (chain/account.StorageCache over the node pool, `LemoModel.StorageCache`) -/
+structure KSt where
+  /-- the key-value store below every TrieDatabase of the scenario -/
+  disk : StorageCache.Disk := []
+  /-- the StorageCaches of the scenario, by number -/
+  caches : List StorageCache.SC := []
+  /-- the key pool: storage key ↦ Keccak256(key) as computed by the harness (crypto.Keccak256) -/
+  pool : List (List Nat × List Nat) := []
+  /-- interned root hashes, in order of first appearance in the output -/
+  ids : List MptStore.Hash := []
+
 structure St where
   trie : Mpt.Node := .empty
   s : SSt := {}
+  k : KSt := {}
 
 /-! ### helpers -/
 
@@ -376,6 +389,176 @@ def step (s : SSt) (w : List String) : SSt × String :=
 
 end S
 
+/-! ### the `sc.…` stream: chain/account.StorageCache (`LemoModel.StorageCache`)
+
+  `hashOf` = the injective serialisation `S.ser` (root ids compare the EQUALITY PATTERN of roots),
+  `small` = the model's own `len(rlp) < 32`, `hk` = the table of the `sc.pool` line (Keccak256 of
+  every pool key, computed by the harness with crypto.Keccak256, not read from the trie code).
+  The iteration order of `range cache.dirty` is not observable on a sound store (that is the theorem
+  `update_order_independent`): the driver takes pool-index order.  When the real `Update` failed in
+  the middle (damaged store) the op line carries the dirty keys that were LEFT (`left=`); the driver
+  then looks for an order that explains them (the failing key last) and prints its own result. -/
+
+namespace K
+open StorageCache MptStore
+
+def hkOf (pool : List (List Nat × List Nat)) (k : List Nat) : List Nat :=
+  match pool.find? (fun e => e.1 = k) with
+  | some e => e.2
+  | none => k
+
+def envOf (st : KSt) : Env := ⟨hkOf st.pool, S.smallOf [], S.ser, S.stackDepth⟩
+
+def keyAt (st : KSt) (i : Nat) : List Nat := ((st.pool[i]?).map (·.1)).getD []
+
+/-- a hash that no node has -/
+def junkRoot : Hash := [9, 9]
+
+def parseRoot? (st : KSt) (s : String) : Option Hash :=
+  if s == "zero" then some zeroHash
+  else if s == "junk" then some junkRoot
+  else if s == "empty" then some (S.ser .empty)
+  else (S.parseId? s).bind (fun i => st.ids[i]?)
+
+def showStorage (st : KSt) (m : Storage) : String :=
+  let es := (List.range st.pool.length).filterMap (fun i =>
+    (sget m (keyAt st i)).map (fun v => toString i ++ ":" ++ S.showVal v))
+  if es.isEmpty then "-" else ",".intercalate es
+
+def dump (st : KSt) (sc : SC) : String :=
+  "c=[" ++ showStorage st sc.cached ++ "] d=[" ++ showStorage st sc.dirty ++ "] t=" ++
+    (match sc.trie with
+     | none => "nil"
+     | some t => "g" ++ toString t.cachegen ++ "/" ++ toString t.cachelimit)
+
+def errStr : Err → String
+  | .trieFail => "err trieFail"
+  | .trieChanged => "err trieChanged"
+  | .missing => "err missing"
+  | .panic => "panic"
+  | .overflow => "overflow"
+
+def dirtyIdx (st : KSt) (d : Storage) : List Nat :=
+  (List.range st.pool.length).filter (fun i => (sget d (keyAt st i)).isSome)
+
+def parseIdxList? (s : String) : Option (List Nat) :=
+  if s == "-" then some [] else
+  (s.splitOn ",").foldr (fun w acc => match w.toNat?, acc with
+    | some n, some l => some (n :: l)
+    | _, _ => none) (some [])
+
+def runUpdate (st : KSt) (sc : SC) (root : Hash) (hint : Option (List Nat)) : SC × Out Hash :=
+  let e := envOf st
+  let D := dirtyIdx st sc.dirty
+  match hint with
+  | none => update e st.disk sc root (D.map (keyAt st))
+  | some L =>
+    let P := D.filter (fun i => !L.contains i)
+    let found := P.filterMap (fun f =>
+      let order := (P.filter (fun i => i != f) ++ [f]).map (keyAt st)
+      let r := update e st.disk sc root order
+      match r.2 with
+      | .err _ => if dirtyIdx st r.1.dirty = L then some r else none
+      | .ok _ => none)
+    match found with
+    | r :: _ => r
+    | [] => update e st.disk sc root (D.map (keyAt st))
+
+def setCache (st : KSt) (c : Nat) (sc : SC) : KSt := { st with caches := st.caches.set c sc }
+
+def parsePoolEntry? (w : String) : Option (List Nat × List Nat) :=
+  match w.splitOn "/" with
+  | [a, b] =>
+    match parseHex? a, parseHex? b with
+    | some a, some b => some (a, b)
+    | _, _ => none
+  | _ => none
+
+def step (st : KSt) (w : List String) : KSt × String :=
+  match w with
+  | ["sc.world"] => ({}, "ok")
+  | "sc.pool" :: es =>
+    match es.foldr (fun w acc => match parsePoolEntry? w, acc with
+        | some e, some l => some (e :: l)
+        | _, _ => none) (some []) with
+    | some pool => ({ st with pool := pool }, "ok " ++ toString pool.length)
+    | none => (st, "bad-op")
+  | ["sc.open"] => ({ st with caches := st.caches ++ [SC.new] }, "ok " ++ toString st.caches.length)
+  | ["sc.set", c, i, v] =>
+    match c.toNat?.bind (fun c => (st.caches[c]?).map (fun sc => (c, sc))), i.toNat?, parseHex? v with
+    | some (c, sc), some i, some v =>
+      let sc' := setState sc (keyAt st i) v
+      (setCache st c sc', "ok " ++ dump st sc')
+    | _, _, _ => (st, "bad-op")
+  | ["sc.del", c, i] =>
+    match c.toNat?.bind (fun c => (st.caches[c]?).map (fun sc => (c, sc))), i.toNat? with
+    | some (c, sc), some i =>
+      let sc' := delState sc (keyAt st i)
+      (setCache st c sc', "ok " ++ dump st sc')
+    | _, _ => (st, "bad-op")
+  | ["sc.isdirty", c, i] =>
+    match c.toNat?.bind (fun c => (st.caches[c]?).map (fun sc => (c, sc))), i.toNat? with
+    | some (_, sc), some i => (st, toString (isDirty sc (keyAt st i)) ++ " " ++ dump st sc)
+    | _, _ => (st, "bad-op")
+  | ["sc.revert", c, i, v] =>
+    match c.toNat?.bind (fun c => (st.caches[c]?).map (fun sc => (c, sc))), i.toNat?, parseHex? v with
+    | some (c, sc), some i, some v =>
+      let sc' := revertState sc (keyAt st i) v
+      (setCache st c sc', "ok " ++ dump st sc')
+    | _, _, _ => (st, "bad-op")
+  | ["sc.reset", c] =>
+    match c.toNat?.bind (fun c => (st.caches[c]?).map (fun sc => (c, sc))) with
+    | some (c, sc) =>
+      let sc' := reset sc
+      (setCache st c sc', "ok " ++ dump st sc')
+    | none => (st, "bad-op")
+  | ["sc.get", c, r, i] =>
+    match c.toNat?.bind (fun c => (st.caches[c]?).map (fun sc => (c, sc))), parseRoot? st r, i.toNat? with
+    | some (c, sc), some root, some i =>
+      let (sc', out) := getState (envOf st) st.disk sc root (keyAt st i)
+      (setCache st c sc', (match out with
+        | .ok v => "v=" ++ S.showVal v
+        | .err e => errStr e) ++ " " ++ dump st sc')
+    | _, _, _ => (st, "bad-op")
+  | "sc.update" :: c :: r :: rest =>
+    let hint : Option (Option (List Nat)) := match rest with
+      | [] => some none
+      | [h] => if h.startsWith "left=" then (parseIdxList? (h.drop 5).toString).map some else none
+      | _ => none
+    match c.toNat?.bind (fun c => (st.caches[c]?).map (fun sc => (c, sc))), parseRoot? st r, hint with
+    | some (c, sc), some root, some hint =>
+      let (sc', out) := runUpdate st sc root hint
+      match out with
+      | .ok h =>
+        if h = zeroHash then (setCache st c sc', "root=zero " ++ dump st sc')
+        else
+          let (ids, i) := S.internId st.ids h
+          let st' := { setCache st c sc' with ids := ids }
+          (st', "root=#" ++ toString i ++ " " ++ dump st' sc')
+      | .err e => (setCache st c sc', errStr e ++ " " ++ dump st sc')
+    | _, _, _ => (st, "bad-op")
+  | ["sc.save", c, r] =>
+    match c.toNat?.bind (fun c => (st.caches[c]?).map (fun sc => (c, sc))), parseRoot? st r with
+    | some (c, sc), some root =>
+      let (disk, sc', out) := save (envOf st) st.disk sc root
+      let st' := { setCache st c sc' with disk := disk }
+      (st', (match out with
+        | .ok _ => "ok"
+        | .err e => errStr e) ++ " " ++ dump st' sc')
+    | _, _ => (st, "bad-op")
+  | ["sc.wipe", keep] =>
+    -- fault injection: every node blob leaves the key-value store, except the one under `keep`;
+    -- the caches of the scenario are dropped (their in-memory tries depend on iteration orders)
+    let keepH : Option (Option Hash) := if keep == "all" then some none else (parseRoot? st keep).map some
+    match keepH with
+    | some kh =>
+      let disk := st.disk.filter (fun e => kh == some e.1)
+      ({ st with disk := disk, caches := [] }, "ok " ++ toString (disk.map (·.1)).eraseDups.length)
+    | none => (st, "bad-op")
+  | _ => (st, "bad-op")
+
+end K
+
 /-! ### step -/
 
 open Merkle in
@@ -458,7 +641,10 @@ def step (s : St) (w : List String) : St × String :=
   | w =>
     match w with
     | op :: _ =>
-      if op.startsWith "s" then
+      if op.startsWith "sc." then
+        let (ks, out) := K.step s.k w
+        ({ s with k := ks }, out)
+      else if op.startsWith "s" then
         let (ss, out) := S.step s.s w
         ({ s with s := ss }, out)
       else (s, "bad-op")
